@@ -96,7 +96,9 @@ func genCtx(t *rapid.T) libexec.TxCtx {
 func genProg(t *rapid.T) libexec.Prog {
 	flags := sgen.Flags(t, sgen.FlagPoolNonSig)
 	var p sgen.Program
-	switch rapid.IntRange(0, 11).Draw(t, "level") {
+	switch rapid.IntRange(0, 12).Draw(t, "level") {
+	case 12:
+		p = sgen.DeepStack(t, flags)
 	case 10:
 		p = sgen.P2SHLookalike(t, flags)
 	case 11:
